@@ -116,8 +116,18 @@ func spreadFault(n int, ones []int, top []int) string {
 // explainID explains the ID a call returned. redo re-executes the ID-drawing
 // call on a scratch manager (ok=false if it fails). It returns the range of
 // the window the ID draw occupies — the key material must come from the rest.
-func (w *world) explainID(wn win, id uint32, redo func() (uint32, bool)) (from, to int, ok bool) {
+//
+// noFeed (may be nil) tells whether the call issued no seam request that could
+// have fed the ID: no seam bytes at all, or only the key's own material. If
+// then no explanation holds, the ID may come from a generator the manager
+// seeded from the seam earlier (its first ID went through the functional
+// explanation): no verdict here — w.idRelaxed is set, the probe
+// keyid-without-seam-bytes-in-call counted, and the ID is left to the
+// necessary conditions every ID meets anyway (exact pairwise distinctness,
+// the spread table, the 512-ID batch, and noSeamIDs below).
+func (w *world) explainID(wn win, id uint32, redo func() (uint32, bool), noFeed func() bool) (from, to int, ok bool) {
 	r := w.r
+	w.idRelaxed = false
 	if off := findID(id, wn.data); off >= 0 {
 		w.oracles["id"] = true
 		w.markEff(wn, off, off+4)
@@ -149,6 +159,11 @@ func (w *world) explainID(wn win, id uint32, redo func() (uint32, bool)) (from, 
 		}
 	}
 	fail := func(why string) (int, int, bool) {
+		if noFeed != nil && noFeed() {
+			w.idRelaxed = true
+			r.Probe("keyid-without-seam-bytes-in-call")
+			return 0, 0, true
+		}
 		if usedAgo > 0 {
 			// Four bytes coincide with some of the last 2^20 issued bytes with
 			// probability 2^-11, and a worker sees thousands of IDs: a match with USED
@@ -226,4 +241,29 @@ func (w *world) explainID(wn win, id uint32, redo func() (uint32, bool)) (from, 
 // without returns data with [from,to) removed.
 func without(data []byte, from, to int) []byte {
 	return append(append([]byte(nil), data[:from]...), data[to:]...)
+}
+
+// noSeamIDs: the IDs one manager handed out without any seam bytes in the call.
+// From 8 such IDs on, a necessary condition for "uniform": at most two
+// consecutive pairs may lie closer than 2^8 (a counter or a clock fails at
+// once). For uniform IDs a pair is that close with probability 511/2^32 < 2^-23;
+// three such pairs among fewer than 2^12 have probability < 2^-36·2^-… < 2^-40.
+func (w *world) noSeamIDs(id uint32) {
+	w.mgrNoSeam = append(w.mgrNoSeam, id)
+	if len(w.mgrNoSeam) < 8 {
+		return
+	}
+	close := 0
+	for i := 1; i < len(w.mgrNoSeam); i++ {
+		d := int64(w.mgrNoSeam[i]) - int64(w.mgrNoSeam[i-1])
+		if d < 0 {
+			d = -d
+		}
+		if d < 256 {
+			close++
+		}
+	}
+	if close > 2 {
+		w.r.Violation("C20/keyid-not-uniform", fmt.Sprintf("%d of %d consecutive key IDs one manager handed out without drawing from the RNG differ by less than 256: %08x", close, len(w.mgrNoSeam)-1, w.mgrNoSeam))
+	}
 }
